@@ -518,10 +518,72 @@ fn main() {
             }
         }
     }
+    // cross-text rounds: one Regex (and clones), threads searching DIFFERENT long texts at the same
+    // time - texts that agree on a long prefix and differ in what a delegated piece finds behind
+    // it, and texts that reach the delegated pieces of two alternatives in opposite order. State
+    // that is per search must not be visible to the neighbour, and nobody may wait for the other.
+    let mut cross_rounds = 0u64;
+    if mode == "native" && !watchdog {
+        let blanks = |n: usize| " ".repeat(n);
+        let cases: Vec<(&str, Vec<String>)> = vec![
+            (r"(\w+)-\1", vec![format!("{}ab-ab", blanks(700)), blanks(4000), format!("{}ab-ac ab-ab", blanks(699))]),
+            (r"(?:<\w+(?=>)|\[\d+(?=\]))", vec![format!("<{} [{}]", "a".repeat(3000), "1".repeat(3000)), format!("[{} <{}>", "1".repeat(3000), "a".repeat(3000))]),
+            (r"(?:(a+)(?=b)|(b+)(?=a))\b|x(?!\1)", vec![format!("{}b {}", "a".repeat(2000), "b".repeat(2000)), format!("{}a {}", "b".repeat(2000), "a".repeat(2000)), format!("{}x", blanks(3000))]),
+        ];
+        'cases: for (ci, (pat, texts)) in cases.iter().enumerate() {
+            let Ok(re) = Regex::new(pat) else { continue };
+            let re = Arc::new(re);
+            let texts: Arc<Vec<String>> = Arc::new(texts.clone());
+            let want: Arc<Vec<[String; 2]>> = Arc::new(texts.iter().map(|t| [call(&re, t, 0), call(&re, t, 1)]).collect());
+            let n_rounds = (target / 40_000).clamp(8, 60);
+            for round in 0..n_rounds {
+                let n = [8usize, 16, 12, 6][(round % 4) as usize];
+                let barrier = Arc::new(Barrier::new(n));
+                let (tx, rx) = mpsc::channel();
+                for tid in 0..n {
+                    let (re, barrier, tx, texts, want) = (re.clone(), barrier.clone(), tx.clone(), texts.clone(), want.clone());
+                    let use_clone = round % 3 == 2 && tid % 2 == 1;
+                    std::thread::spawn(move || {
+                        let own = if use_clone { Some((*re).clone()) } else { None };
+                        let r: &Regex = own.as_ref().unwrap_or(&re);
+                        let ti = (tid + round as usize) % texts.len();
+                        barrier.wait();
+                        let mut bad = None;
+                        for k in 0..4usize {
+                            match std::panic::catch_unwind(std::panic::AssertUnwindSafe(|| call(r, &texts[ti], k % 2))) {
+                                Ok(s) if s == want[ti][k % 2] => {}
+                                Ok(s) => bad = Some(format!("CROSS TEXT: case {} text {} thread {}{}: got {:.80}, the single-threaded run gave {:.80}", ci, ti, tid, if use_clone { " (clone)" } else { "" }, s, want[ti][k % 2])),
+                                Err(_) => bad = Some(format!("CROSS TEXT: case {} thread {} panicked", ci, tid)),
+                            }
+                        }
+                        let _ = tx.send(bad);
+                    });
+                }
+                drop(tx);
+                for _ in 0..n {
+                    match rx.recv_timeout(Duration::from_secs(60)) {
+                        Ok(Some(m)) => total.mismatches.push(m),
+                        Ok(None) => {}
+                        Err(_) => {
+                            watchdog = true;
+                            eprintln!("c18stress: cross-text round {} of case {} with {} threads: a thread did not come back within 60 s", round, ci, n);
+                            break;
+                        }
+                    }
+                    total.calls += 4;
+                }
+                cross_rounds += 1;
+                if watchdog {
+                    break 'cases;
+                }
+            }
+        }
+    }
     total.mismatches.extend(clone_diffs);
     let res = serde_json::json!({
         "clone_programs_compared": clone_programs_compared,
         "long_search_rounds": long_rounds,
+        "cross_text_rounds": cross_rounds,
         "mode": mode, "seed": seed, "calls": total.calls, "overlapped_calls": total.overlapped,
         "distinct_triples_compared_under_overlap": total.triples_overlapped.len(),
         "peak_threads_inside_one_regex": peak.load(Ordering::Relaxed),
